@@ -4,6 +4,7 @@ import Pyunicorn.Lemmas.GeoRound
 import Pyunicorn.Lemmas.GeoRoundAng
 import Pyunicorn.Lemmas.GeoHist
 import Pyunicorn.Generated.StructC12
+import Pyunicorn.Model.GeoArea
 /-!
 # C12 — Grid distances equal closed-form geometry and are metrics
 
@@ -1390,6 +1391,325 @@ example : maxNbAWC (fun j => (j : ℚ)) (fun _ j => if j = 1 then 1 else 0) 3 0 
   decide +kernel
 example : histCounts 2 (0 : ℚ) 2 [0, 1, 2, 1, 0, 1, 2, 1, 0] = [3, 6] := by decide +kernel
 
+/-! ## round 4: the distance histograms are probability distributions -/
+
+private theorem foldl_add_eq_list_sum (l : List ℚ) (a : ℚ) : l.foldl (· + ·) a = a + l.sum := by
+  induction l generalizing a with
+  | nil => simp
+  | cons x xs ih => simp [List.foldl_cons, ih, add_assoc]
+
+/-- `dist / dist.sum()`: whenever numpy's result is finite (non-zero sum) the normalised
+histogram has as many bins as the counts and sums to exactly 1 -/
+theorem normalize_sum (c r : List ℚ) (h : normalize c = some r) :
+    r.sum = 1 ∧ r.length = c.length := by
+  unfold normalize at h
+  simp only [foldl_add_eq_list_sum, zero_add] at h
+  split at h
+  · cases h
+  · rename_i hs
+    cases h
+    refine ⟨?_, by simp⟩
+    simp only [div_eq_mul_inv]
+    rw [List.sum_map_mul_right]
+    simp only [List.map_id']
+    exact mul_inv_cancel₀ hs
+
+/-- **`geometric_distance_distribution(n_bins)[0]`** — whenever the method returns finite
+values they are `n_bins` relative frequencies summing to 1 -/
+theorem geomDistDist_sum (D : Nat → Nat → ℚ) (N nb : Nat) (r : List ℚ)
+    (h : geomDistDist D N nb = .ok (some r)) : r.sum = 1 ∧ r.length = nb := by
+  unfold geomDistDist at h
+  cases hc : geomCounts D N nb with
+  | error e => rw [hc] at h; cases h
+  | ok c =>
+    rw [hc] at h
+    simp only [Except.map] at h
+    have hn : normalize (c.map fun (k : Int) => (k : ℚ)) = some r := by
+      injection h
+    obtain ⟨h1, h2⟩ := normalize_sum _ _ hn
+    refine ⟨h1, ?_⟩
+    rw [h2, List.length_map]
+    unfold geomCounts at hc
+    split at hc
+    · cases hc
+    · split at hc
+      · cases hc
+      · injection hc with hc; rw [← hc]; simp
+
+theorem linkCounts_length (D A : Nat → Nat → ℚ) (N nb : Nat) (c : List Nat)
+    (h : linkCounts D A N nb = .ok c) : c.length = nb := by
+  unfold linkCounts at h
+  split at h
+  · cases h
+  · split at h
+    · cases h
+    · injection h with h; rw [← h]; simp [histCounts]
+
+/-- **`link_distance_distribution(n_bins, geometry_corrected)[0]`** — both with and without the
+geometry correction a finite result consists of `n_bins` values summing to 1 -/
+theorem linkDistDist_sum (D Dg A : Nat → Nat → ℚ) (N nb : Nat) (corr : Bool) (r : List ℚ)
+    (h : linkDistDist D Dg A N nb corr = .ok (some r)) : r.sum = 1 ∧ r.length = nb := by
+  unfold linkDistDist at h
+  cases hc : linkCounts D A N nb with
+  | error e => rw [hc] at h; cases h
+  | ok c =>
+    have hlen := linkCounts_length D A N nb c hc
+    rw [hc] at h
+    simp only [bind, Except.bind] at h
+    cases corr with
+    | false =>
+      simp only [Bool.false_eq_true, if_false, pure, Except.pure] at h
+      injection h with h
+      cases hrel : normalize (c.map fun (k : Nat) => (k : ℚ)) with
+      | none => rw [hrel] at h; cases h
+      | some rel =>
+        rw [hrel] at h
+        simp only [Option.bind_some] at h
+        obtain ⟨_, l1⟩ := normalize_sum _ _ hrel
+        obtain ⟨s2, l2⟩ := normalize_sum _ _ h
+        exact ⟨s2, by rw [l2, l1, List.length_map, hlen]⟩
+    | true =>
+      simp only [if_true] at h
+      cases hg : geomDistDist Dg N nb with
+      | error e => rw [hg] at h; cases h
+      | ok g =>
+        rw [hg] at h
+        simp only [pure, Except.pure] at h
+        injection h with h
+        cases hrel : normalize (c.map fun (k : Nat) => (k : ℚ)) with
+        | none => rw [hrel] at h; cases h
+        | some rel =>
+          cases g with
+          | none => rw [hrel] at h; cases h
+          | some gd =>
+            rw [hrel] at h
+            simp only at h
+            split at h
+            · cases h
+            · obtain ⟨_, l1⟩ := normalize_sum _ _ hrel
+              obtain ⟨_, lg⟩ := geomDistDist_sum Dg N nb gd hg
+              obtain ⟨s2, l2⟩ := normalize_sum _ _ h
+              refine ⟨s2, ?_⟩
+              rw [l2, List.length_map, List.length_zip, l1, lg, List.length_map, hlen]
+              simp
+
+example : geomDistDist (fun i j => if i ≤ j then ((j : ℚ) - i) else ((i : ℚ) - j)) 3 2
+    = .ok (some [0, 1]) := by decide +kernel
+
+/-! ## round 4: the grid as an object; area-weighted distance measures -/
+
+/-- **`Grid.euclidean_distance()` of a grid object of any dimension** (`N_dim =
+sequences.shape[0]`, `N_nodes = self.N = space_seq.shape[1]`): entry `(a, b)` is the distance of
+the two nodes in `ℝ^dim`, `dim` being the number of rows of the coordinate array — 1, 2, 3, 5 … -/
+theorem gridEuclideanDistance_eq_dist (g : GridData ℝ) (a b : Nat) (ha : a < g.N) (hb : b < g.N) :
+    gridEuclideanDistance realTrig g a b = dist (pt g.x g.dim a) (pt g.x g.dim b) :=
+  euclideanDistance_eq_dist g.x g.dim g.N a b ha hb
+
+/-- every coordinate enters: two nodes are at distance zero iff they agree in **all** `dim`
+rows (a kernel that is handed a smaller dimension identifies nodes differing in the rest) -/
+theorem gridEuclideanDistance_eq_zero_iff (g : GridData ℝ) (a b : Nat) (ha : a < g.N) (hb : b < g.N) :
+    gridEuclideanDistance realTrig g a b = 0 ↔ ∀ k < g.dim, g.x k a = g.x k b :=
+  euclideanDistance_eq_zero_iff g.x g.dim g.N a b ha hb
+
+/-- *structural* — exactly symmetric, any number type -/
+theorem gridEuclideanDistance_symm {α : Type} [Add α] [Mul α] [Sub α] [Neg α] [Div α] [OfNat α 0]
+    [OfNat α 1] [LT α] [DecidableLT α] [DecidableEq α] (T : Trig α) (g : GridData α) (a b : Nat) :
+    gridEuclideanDistance T g a b = gridEuclideanDistance T g b a :=
+  euclideanDistance_symm T g.x g.dim g.N a b
+
+/-- a one-dimensional grid: the distance is `|x_a − x_b|` -/
+theorem gridEuclideanDistance_dim_one (g : GridData ℝ) (h : g.dim = 1) (a b : Nat)
+    (ha : a < g.N) (hb : b < g.N) :
+    gridEuclideanDistance realTrig g a b = |g.x 0 a - g.x 0 b| := by
+  simp only [gridEuclideanDistance, realTrig, h]
+  rw [euclKernel_apply _ _ _ g.N a b ha hb]
+  simp only [sumsq, List.range_one, List.foldl_cons, List.foldl_nil, zero_add]
+  rw [← sq, Real.sqrt_sq_eq_abs]
+  rcases Nat.le_total a b with h' | h'
+  · rw [Nat.max_eq_right h', Nat.min_eq_left h', abs_sub_comm]
+  · rw [Nat.max_eq_left h', Nat.min_eq_right h']
+
+/-- `GeoGrid.__init__` stores latitudes in row 0 and longitudes in row 1, so
+`lat_sequence()` / `lon_sequence()` (= `sequence(0)` / `sequence(1)`) return what was passed,
+and a third coordinate does not exist -/
+theorem geoGridData_sequences {α : Type} (lat lon : Nat → α) (n : Nat) :
+    (geoGridData lat lon n).sequence 0 = some lat ∧ (geoGridData lat lon n).sequence 1 = some lon ∧
+    (∀ k, 2 ≤ k → (geoGridData lat lon n).sequence k = none) ∧ (geoGridData lat lon n).N = n := by
+  refine ⟨rfl, rfl, ?_, rfl⟩
+  intro k hk
+  exact if_neg (by show ¬ k < 2; omega)
+
+/-- **`grid.distance()` of a `GeoGrid` object** is the great-circle distance of the nodes it was
+built from (the override `GeoGrid.distance` → `angular_distance`, tables from rows 0 / 1) -/
+theorem geoGrid_distance_eq_angle (lat lon : Nat → ℝ) (n a b : Nat) (ha : a < n) (hb : b < n) :
+    gridDistance realTrig .geo (geoGridData lat lon n) a b
+      = angle (nodeVec lat lon a) (nodeVec lat lon b) := by
+  simp only [gridDistance, gridAngularDistance, geoGridData, GridData.N]
+  exact angularDistance_eq_angle _ _ n a b ha hb
+
+/-- **`grid.distance()` of a plain `Grid` object** is the Euclidean distance in `ℝ^dim` -/
+theorem grid_distance_eq_dist (g : GridData ℝ) (a b : Nat) (ha : a < g.N) (hb : b < g.N) :
+    gridDistance realTrig .euclid g a b = dist (pt g.x g.dim a) (pt g.x g.dim b) :=
+  gridEuclideanDistance_eq_dist g a b ha hb
+
+/-- `GeoGrid.euclidean_distance()` (inherited; used by `link_distance_distribution` with
+`grid_type="euclidean"`): the distance of the (lat, lon) pairs in the plane of degrees -/
+theorem geoGrid_euclidean (lat lon : Nat → ℝ) (n a b : Nat) (ha : a < n) (hb : b < n) :
+    gridEuclideanDistance realTrig (geoGridData lat lon n) a b
+      = Real.sqrt ((lat a - lat b) ^ 2 + (lon a - lon b) ^ 2) := by
+  simp only [gridEuclideanDistance, realTrig, geoGridData, GridData.N]
+  rw [euclKernel_apply _ _ _ n a b ha hb]
+  simp only [sumsq, List.range_succ, List.range_zero, List.nil_append]
+  congr 1
+  rcases Nat.le_total a b with h' | h'
+  · rw [Nat.max_eq_right h', Nat.min_eq_left h']; simp; ring
+  · rw [Nat.max_eq_left h', Nat.min_eq_right h']; simp; ring
+
+example : gridEuclideanDistance realTrig ⟨1, 2, fun _ i => if i = 0 then 2 else 5⟩ 0 1 = 3 := by
+  rw [gridEuclideanDistance_dim_one _ rfl 0 1 (by decide) (by decide)]; norm_num
+
+section AreaDistance
+set_option linter.unusedSectionVars false
+variable {α : Type} [Field α] [LinearOrder α] [IsStrictOrderedRing α]
+
+/-- the model with a trigonometric structure is the weight-table model at `w = cos(lat)` -/
+theorem AWC_eq_AWCw (T : Trig α) (dir : Bool) (lat : Nat → α) (A : Nat → Nat → α) (N i : Nat) :
+    AWC T dir lat A N i = AWCw dir (fun i => T.cos (T.rad (lat i))) A N i := rfl
+
+/-- **connectivity weighted distance**: for a 0/1 row, `degree =` its row sum `≠ 0` and a
+non-zero total weight the value satisfies
+`cwd · degree · Σ_k w_k = Σ_{j ∈ N(i)} w_j · D[i, j]` — every neighbour's distance weighted by the
+cosine of **that neighbour's own** latitude; with non-negative weights `cwd · degree` lies
+between `lo · awc_i` and `hi · awc_i` for any bounds of the neighbours' distances, `awc_i` being
+the out-area-weighted connectivity of the same row. -/
+theorem genCWD_spec (D A : Nat → Nat → α) (w deg : Nat → α) (N i : Nat)
+    (hA : ∀ j < N, A i j = 0 ∨ A i j = 1) (hne : deg i ≠ 0)
+    (hw : ∀ j < N, 0 ≤ w j) (hnorm : 0 < ∑ k ∈ Finset.range N, w k) :
+    ∃ v, genCWD D A w deg N i = some v ∧
+      v * (deg i * ∑ k ∈ Finset.range N, w k) = ∑ j ∈ Finset.range N, A i j * w j * D i j ∧
+      ∀ lo hi : α, (∀ j < N, A i j = 1 → lo ≤ D i j ∧ D i j ≤ hi) →
+        lo * outAWCw w A N i ≤ v * deg i ∧ v * deg i ≤ hi * outAWCw w A N i := by
+  have hn : sumTo N w = ∑ k ∈ Finset.range N, w k := foldl_add_eq_sum _ N
+  have hs : sumTo N (fun j => A i j * w j * D i j) = ∑ j ∈ Finset.range N, A i j * w j * D i j :=
+    foldl_add_eq_sum _ N
+  have ha : sumTo N (fun j => A i j * w j) = ∑ j ∈ Finset.range N, A i j * w j :=
+    foldl_add_eq_sum _ N
+  have hprod : deg i * sumTo N w ≠ 0 := by rw [hn]; exact mul_ne_zero hne hnorm.ne'
+  refine ⟨_, by simp only [genCWD, if_neg hne, if_neg hprod]; rfl, ?_, ?_⟩
+  · rw [hn, hs, div_mul_cancel₀]; rw [← hn]; exact hprod
+  · intro lo hi hb
+    have key : (sumTo N (fun j => A i j * w j * D i j) / (deg i * sumTo N w)) * deg i
+        = (∑ j ∈ Finset.range N, A i j * w j * D i j) / (∑ k ∈ Finset.range N, w k) := by
+      rw [hs, hn]; field_simp
+    rw [key]
+    simp only [outAWCw, ha, hn]
+    rw [← mul_div_assoc, ← mul_div_assoc, div_le_div_iff_of_pos_right hnorm,
+      div_le_div_iff_of_pos_right hnorm, Finset.mul_sum, Finset.mul_sum]
+    constructor
+    · apply Finset.sum_le_sum
+      intro j hj
+      have hj' := Finset.mem_range.1 hj
+      rcases hA j hj' with h | h
+      · rw [h]; simp
+      · rw [h, one_mul, mul_comm lo]
+        exact mul_le_mul_of_nonneg_left (hb j hj' h).1 (hw j hj')
+    · apply Finset.sum_le_sum
+      intro j hj
+      have hj' := Finset.mem_range.1 hj
+      rcases hA j hj' with h | h
+      · rw [h]; simp
+      · rw [h, one_mul, mul_comm hi]
+        exact mul_le_mul_of_nonneg_left (hb j hj' h).2 (hw j hj')
+
+/-- a node without links (zero row, degree 0) gets the value `0` -/
+theorem genCWD_isolated (D A : Nat → Nat → α) (w deg : Nat → α) (N i : Nat)
+    (hA : ∀ j < N, A i j = 0) (h : deg i = 0) : genCWD D A w deg N i = some 0 := by
+  have hs : sumTo N (fun j => A i j * w j * D i j) = ∑ j ∈ Finset.range N, A i j * w j * D i j :=
+    foldl_add_eq_sum _ N
+  simp only [genCWD, h, if_true, hs, Option.some.injEq]
+  apply Finset.sum_eq_zero
+  intro j hj
+  rw [hA j (Finset.mem_range.1 hj)]; simp
+
+/-- a zero total weight with a non-zero degree has no value (numpy: `nan` / `inf`) -/
+theorem genCWD_zero_norm (D A : Nat → Nat → α) (w deg : Nat → α) (N i : Nat) (hne : deg i ≠ 0)
+    (h : ∑ k ∈ Finset.range N, w k = 0) : genCWD D A w deg N i = none := by
+  have hn : sumTo N w = ∑ k ∈ Finset.range N, w k := foldl_add_eq_sum _ N
+  simp [genCWD, hne, hn, h]
+
+/-- the in-variant is the out-variant of the transposed matrix, so that the degree passed is
+the row sum of the matrix passed (hypothesis of `genCWD_spec`) -/
+theorem inCWD_eq_outCWD_transpose (D A : Nat → Nat → α) (w : Nat → α) (N i : Nat) :
+    inCWD D A w N i = outCWD D (fun a b => A b a) w N i := rfl
+
+theorem outCWD_spec (D A : Nat → Nat → α) (w : Nat → α) (N i : Nat)
+    (hA : ∀ j < N, A i j = 0 ∨ A i j = 1) (hne : (∑ j ∈ Finset.range N, A i j) ≠ 0)
+    (hw : ∀ j < N, 0 ≤ w j) (hnorm : 0 < ∑ k ∈ Finset.range N, w k) :
+    ∃ v, outCWD D A w N i = some v ∧
+      v * ((∑ j ∈ Finset.range N, A i j) * ∑ k ∈ Finset.range N, w k)
+        = ∑ j ∈ Finset.range N, A i j * w j * D i j := by
+  have hd : sumTo N (fun j => A i j) = ∑ j ∈ Finset.range N, A i j := foldl_add_eq_sum _ N
+  obtain ⟨v, h1, h2, _⟩ := genCWD_spec D A w (fun i => sumTo N (fun j => A i j)) N i hA
+    (by rw [hd]; exact hne) hw hnorm
+  exact ⟨v, h1, by rw [← hd]; exact h2⟩
+
+/-- for an undirected network `connectivity_weighted_distance` is the out-variant -/
+theorem CWD_undirected (D A : Nat → Nat → α) (w : Nat → α) (N i : Nat) (h : ∀ i j, A i j = A j i) :
+    CWD false D A w N i = outCWD D A w N i := by
+  simp only [CWD, outCWD, undirAdj_of_symm A h]
+  simp
+
+/-- **total link distance** `= average link distance × area weighted connectivity`; for a 0/1
+row with non-zero row sum: `tld · degree = (Σ_{j ∈ N(i)} D[i, j]) · awc_i` -/
+theorem outTLD_spec (D A : Nat → Nat → α) (w : Nat → α) (N : Nat) (nN : α) (i : Nat)
+    (hA : ∀ j < N, A i j = 0 ∨ A i j = 1) (hne : (∑ j ∈ Finset.range N, A i j) ≠ 0) :
+    ∃ v, outTLD D A w N nN false i = some v ∧
+      v * (∑ j ∈ Finset.range N, A i j)
+        = (∑ j ∈ Finset.range N, D i j * A i j) * outAWCw w A N i := by
+  obtain ⟨v, h1, h2⟩ := outALD_mean D A N nN i hA hne
+  refine ⟨v * outAWCw w A N i, by simp [outTLD, h1], ?_⟩
+  rw [← h2]; ring
+
+theorem inTLD_eq_outTLD_transpose (D A : Nat → Nat → α) (w : Nat → α) (N : Nat) (nN : α) (c : Bool)
+    (i : Nat) : inTLD D A w N nN c i = outTLD D (fun a b => A b a) w N nN c i := by
+  simp only [inTLD, outTLD, inALD_eq_outALD_transpose, inAWCw, outAWCw]
+  congr 1; funext v; congr 2
+  congr 1; funext k; exact mul_comm _ _
+
+/-- an isolated node has total link distance `0` whatever its area weighted connectivity -/
+theorem outTLD_isolated (D A : Nat → Nat → α) (w : Nat → α) (N : Nat) (nN : α) (i : Nat)
+    (h : (∑ j ∈ Finset.range N, A i j) = 0) : outTLD D A w N nN false i = some 0 := by
+  have hd : sumTo N (fun j => A i j) = ∑ j ∈ Finset.range N, A i j := foldl_add_eq_sum _ N
+  have := genALD_isolated D A (fun i => sumTo N (fun j => A i j)) N nN i (by rw [hd]; exact h)
+  simp [outTLD, outALD, this]
+
+end AreaDistance
+
+example : outCWD (fun _ j => (j : ℚ)) (fun _ j => if j = 0 then 0 else 1) (fun _ => 1 / 2) 3 0
+    = some (1 / 2) := by decide +kernel
+example : outTLD (fun _ j => (j : ℚ)) (fun _ j => if j = 0 then 0 else 1) (fun _ => 1 / 2) 3 3 false 0
+    = some 1 := by decide +kernel
+
+/-- `GeoGrid.coord_sequence_from_rect_grid(lat_grid, lon_grid)`: node `n` has the latitude
+`lat_grid[n / n_lon]` and the longitude `lon_grid[n % n_lon]` — latitude slowest, exactly the
+Cartesian product (through `rectGrid_entry` / `nodeIdx_two`) -/
+theorem geoRectGrid_spec {β : Type} (latG lonG : List β) :
+    ∃ la lo, geoRectGrid latG lonG = some (la, lo) ∧
+      la.length = latG.length * lonG.length ∧ lo.length = latG.length * lonG.length ∧
+      ∀ n < latG.length * lonG.length,
+        la[n]? = some latG[n / lonG.length % latG.length]? ∧ lo[n]? = some lonG[n % lonG.length]? := by
+  have h : rectGrid [latG, lonG]
+      = [(List.range (latG.length * lonG.length)).map (fun n => latG[n / lonG.length % latG.length]?),
+         (List.range (latG.length * lonG.length)).map (fun n => lonG[n % lonG.length]?)] := by
+    simp [rectGrid, nNodes, prod, nodeIdx_two, List.range_succ]
+  refine ⟨_, _, by rw [geoRectGrid, h], by simp, by simp, ?_⟩
+  intro n hn
+  simp [hn]
+
+example : geoRectGrid [0, 5] [1, 2, (3 : Int)]
+    = some ([some 0, some 0, some 0, some 5, some 5, some 5],
+            [some 1, some 2, some 3, some 1, some 2, some 3]) := by decide
+
 /-! ## tie to the source: the definitions regenerated from the working tree
 
 `translate/gen_C12.py` re-reads `numerics.pyx`, `geo_grid.py`, `grid.py` and
@@ -1525,6 +1845,60 @@ holding such a matrix obtained it through `.copy()` (seeded C12-3 removes the co
 `local_geographical_clustering`) -/
 theorem src_distance_copies :
     ∀ p ∈ StructC12.distEdits, p.2.2 = true := by decide
+
+/-- round 4 — `Grid.euclidean_distance` hands the kernel `sequences.shape[0]` as `N_dim` and
+`self.N` as `N_nodes`, `self.N` being `space_seq.shape[1]` (`Grid.__init__`), whatever the shape
+and number of axes of the coordinate array; the kernel's `x` is the stored coordinate array, its
+`distance` a fresh zero matrix, and that matrix is returned (seeded C12-5 passes `sequences.ndim`) -/
+theorem src_euclid_wiring :
+    (∀ s0 s1 nd, StructC12.eucNDim s0 s1 nd = s0) ∧ (∀ s0 s1 nd, StructC12.eucNNodes s0 s1 nd = s1) ∧
+    (∀ s0 s1 nd, StructC12.gridN s0 s1 nd = s1) ∧
+    StructC12.eucBinding = [("x", "sequences", "to_cy(self._grid['space'], FIELD)"),
+      ("distance", "distance", "np.zeros((N_nodes, N_nodes), dtype=FIELD)")] ∧
+    StructC12.eucReturn = "distance" ∧ StructC12.gridSpaceStored = "space_seq.astype('float32')" :=
+  ⟨fun _ _ _ => rfl, fun _ _ _ => rfl, fun _ _ _ => rfl, by decide, by decide, by decide⟩
+
+/-- the object-level model `gridEuclideanDistance` is the kernel model at the sizes the source
+computes from the shape `(dim, n)` of the two-dimensional coordinate array -/
+theorem src_gridEuclideanDistance {α : Type} [Add α] [Mul α] [Sub α] [Neg α] [Div α] [OfNat α 0]
+    [OfNat α 1] [LT α] [DecidableLT α] [DecidableEq α] (T : Trig α) (g : GridData α) :
+    gridEuclideanDistance T g
+      = euclKernel T.sqrt g.x (StructC12.eucNDim g.dim g.n 2) (StructC12.eucNNodes g.dim g.n 2) := rfl
+
+/-- `Grid.distance` returns the Euclidean, the override `GeoGrid.distance` the angular distances;
+`GeoGrid.__init__` stacks `(lat_seq, lon_seq)` in this order (rows 0 / 1, cf. `src_angular_wiring`);
+`GeoGrid.coord_sequence_from_rect_grid` is the generic routine on `[lat_grid, lon_grid]` -/
+theorem src_grid_objects :
+    StructC12.distanceTargets = [("Grid", "self.euclidean_distance()"),
+      ("GeoGrid", "self.angular_distance()")] ∧
+    StructC12.geoInitSpace = "np.vstack((lat_seq, lon_seq))" ∧
+    StructC12.geoRect = ("Grid.coord_sequence_from_rect_grid([lat_grid, lon_grid])",
+      "(space_seq[0], space_seq[1])") := by decide
+
+/-- `_calculate_general_connectivity_weighted_distance` is the model's `genCWD` (angular
+distances, weights `cos_lat()`, the neighbour's weight inside the sum, division by
+`degree * cos_lat.sum()` where the degree is not zero), with the (adjacency, degree) pairs the
+three wrappers pass; the total link distances are the products `ald * awc` of the matching
+in / out / undirected variants -/
+theorem src_cwd :
+    StructC12.cwdLocals = [("D", "self.grid.angular_distance()"), ("cos_lat", "self.grid.cos_lat()"),
+      ("norm", "cos_lat.sum()")] ∧
+    StructC12.cwdLoop = ("range(self.N)", "connectivity_weighted_distance[i]",
+      "(adjacency[i, :] * cos_lat * D[i, :]).sum()") ∧
+    StructC12.cwdNormalise = ("connectivity_weighted_distance[degree != 0]",
+      "Div degree[degree != 0] * norm") ∧
+    StructC12.cwdReturn = "connectivity_weighted_distance" ∧
+    StructC12.cwdWrappers = [
+      ("connectivity_weighted_distance", "self.undirected_adjacency().toarray()", "self.degree()"),
+      ("inconnectivity_weighted_distance", "self.adjacency.transpose()", "self.indegree()"),
+      ("outconnectivity_weighted_distance", "self.adjacency", "self.outdegree()")] ∧
+    StructC12.tldProducts = [
+      ("total_link_distance", "self.average_link_distance(geometry_corrected)",
+        "self.area_weighted_connectivity()"),
+      ("intotal_link_distance", "self.inaverage_link_distance(geometry_corrected)",
+        "self.inarea_weighted_connectivity()"),
+      ("outtotal_link_distance", "self.outaverage_link_distance(geometry_corrected)",
+        "self.outarea_weighted_connectivity()")] := by decide
 
 end SourceTie
 
